@@ -124,7 +124,75 @@ class World:
                      else None, now - r["t0"], r["task_obj"].duration))
         return out
 
+    # ---- hidden state of suspended processes ------------------------------
+    def _cv(self, v, depth=0):
+        """canonical form of a local variable of a suspended generator"""
+        res = self.cluster._clusters['default']['resources']
+        if v is None or isinstance(v, (bool, int, float, str)):
+            return v
+        if isinstance(v, list):
+            for k in ('available', 'ingest', 'occupied'):
+                if v is res[k]:
+                    return ("pool", k)
+            for k, lst in res['idle'].items():
+                if v is lst:
+                    return ("pool", "idle:%s" % k)
+            if depth > 2:
+                return ("list", len(v))
+            return ("list",) + tuple(self._cv(x, depth + 1) for x in v)
+        if isinstance(v, dict):
+            if v is res['idle']:
+                return ("pool", "idle-dict")
+            if depth > 1:
+                return ("dict", len(v))
+            return ("dict",) + tuple(sorted(
+                (str(k), repr(self._cv(x, depth + 1))) for k, x in v.items()))
+        if isinstance(v, (tuple, set, frozenset)):
+            return (type(v).__name__,) + tuple(
+                sorted(repr(self._cv(x, depth + 1)) for x in v))
+        if isinstance(v, Task):
+            now = self.env.now
+            return ("task", v.duration, v.task_status.name,
+                    None if v.ast is None or v.ast < 0 else v.ast - now,
+                    None if v.aft is None or v.aft < 0 else v.aft - now)
+        if hasattr(v, "cpu") and hasattr(v, "bandwidth"):
+            return ("machine", v.id)
+        if isinstance(v, Observation):
+            return ("obs", v.duration, str(v.status))
+        if hasattr(v, "triggered"):
+            return ("event", bool(v.triggered))
+        return type(v).__name__
+
+    def frames(self):
+        """(function, resume point, canonical locals) of every suspended
+        topsim generator: state the pools do not show (e.g. a reference to a
+        list kept across a yield) must not be merged away by state matching"""
+        from simpy.events import Process
+        out = []
+        seen = set()
+        for _, _, _, ev in self.env._queue:
+            for cb in (ev.callbacks or ()):
+                proc = getattr(cb, "__self__", None)
+                if not isinstance(proc, Process) or id(proc) in seen:
+                    continue
+                seen.add(id(proc))
+                g = proc._generator
+                while getattr(g, "gi_yieldfrom", None) is not None and \
+                        hasattr(g.gi_yieldfrom, "gi_frame"):
+                    g = g.gi_yieldfrom
+                fr = getattr(g, "gi_frame", None)
+                if fr is None:
+                    continue
+                loc = tuple(sorted(
+                    (k, repr(self._cv(v))) for k, v in fr.f_locals.items()
+                    if k not in ("self", "env", "c")))
+                out.append((g.gi_code.co_name, fr.f_lasti, loc))
+        return tuple(sorted(out))
+
     def canon(self):
+        return self._canon_pools() + (self.frames(),)
+
+    def _canon_pools(self):
         p = self.pools()
         cl = self.cluster
         u = cl._clusters['default']['usage_data']
